@@ -123,6 +123,18 @@ def check_replication(rng, X, desc):
         X = X[:300]
         n = 300
     wi = rng.integers(1, 4, n)
+    zero_rows = 0
+    if n >= 12 and rng.random() < 0.4:
+        # some rows carry weight 0 (= the row is absent); a few of them lie far outside the bulk of the weighted rows
+        X = X.copy()
+        nz = int(rng.integers(1, max(2, n // 5)))
+        zi = rng.choice(n, nz, replace=False)
+        wi[zi] = 0
+        far = zi[: max(1, nz // 2)]
+        spread = float(np.max(np.ptp(X[wi > 0], axis=0))) or 1.0
+        X[far] = X[far] + rng.choice([-1.0, 1.0], (len(far), d)) * spread * 10.0 ** rng.uniform(1, 6, (len(far), 1))
+        zero_rows = nz
+    desc["zero_weight_rows"] = zero_rows
     K = int(rng.integers(1, 3))
     ct = str(rng.choice(["full", "diag"]))
     iters = int(rng.integers(1, 6))
@@ -137,7 +149,8 @@ def check_replication(rng, X, desc):
     with np.errstate(all="ignore"):
         a.fit(X, sample_weight=wi.astype(float))
         b.fit(np.repeat(X, wi, axis=0))
-    sc = max(1.0, float(np.max(np.abs(X))))
+    Xp = X[wi > 0]
+    sc = max(1.0, float(np.max(np.abs(Xp))))
     import itertools
     best = None
     # with several restarts two of them may reach the same optimum with the components in another order, and which of the
@@ -152,11 +165,11 @@ def check_replication(rng, X, desc):
             best = (dm, dw, dc)
     dm, dw, dc = best
     # data far from the origin carry fewer digits than their spread needs: eps*max|x|/min(std) is the relative resolution left
-    prec = float(np.finfo(float).eps * np.max(np.abs(X)) / max(float(np.min(np.std(X, axis=0))), 1e-300))
+    prec = float(np.finfo(float).eps * np.max(np.abs(Xp)) / max(float(np.min(np.std(Xp, axis=0))), 1e-300))
     if max(dm, dw, dc) > (1e-6 if n_init == 1 else 1e-5) + 1e3 * prec:
         # k-means++ seeding picks the same *point* only if the draw does not land within rounding of a
         # cumulative-weight boundary; a different seed point is a different (legitimate) EM start
-        return [("gmm-replication", f"integer weights vs replicated points differ: means {dm:.3g} weights {dw:.3g} cov {dc:.3g} ({ct},K={K},iters={iters},n_init={n_init})")]
+        return [("gmm-replication", f"integer weights vs replicated points differ: means {dm:.3g} weights {dw:.3g} cov {dc:.3g} ({ct},K={K},iters={iters},n_init={n_init},rows of weight 0: {zero_rows})")]
     return []
 
 
@@ -340,6 +353,7 @@ def run():
             ck.event("HierarchicalGaussianMixture fit checked")
             if rep:
                 ck.event("weight-replication pair compared")
+                ck.event("... of which some rows carry weight 0 and lie far outside the weighted rows", int(bool(desc.get("zero_weight_rows"))))
             if (desc.get("hier") or {}).get("long_query"):
                 ck.event("predict / predict_proba on one batch of more than 65536 query points")
             if (desc.get("hier") or {}).get("reused_after_d") is not None:
